@@ -8,6 +8,18 @@ use std::panic::{catch_unwind, AssertUnwindSafe};
 use zip::ZipArchive;
 
 fn read_all(f: &mut dyn Read, bufsize: usize) -> Result<(u64, u32), String> {
+    if bufsize == 0 {
+        // (scenario field buf = 0: the entry is read through read_to_end - an implementation may specialise it)
+        let mut v = vec![];
+        return match f.read_to_end(&mut v) {
+            Ok(_) => {
+                let mut c = Crc::new();
+                c.update(&v);
+                Ok((v.len() as u64, c.finish()))
+            }
+            Err(e) => Err(e.to_string()),
+        };
+    }
     let mut buf = vec![0u8; bufsize.max(1)];
     let (mut n, mut c) = (0u64, Crc::new());
     loop {
@@ -131,6 +143,11 @@ pub fn run(sc: &Value) -> Vec<Value> {
                                     Ok((n, c)) => outcome.push(json!({"name": nm, "len": n, "crc": hex32(c)})),
                                     Err(e) => {
                                         anyerr = true;
+                                        // reading again after an error, and releasing the entry, must not panic either
+                                        let mut more = [0u8; 8];
+                                        for _ in 0..2 {
+                                            let _ = f.read(&mut more);
+                                        }
                                         if first_err.is_empty() {
                                             first_err = format!("read: {}", e);
                                         }
